@@ -67,10 +67,8 @@ def run(ctx, chk):
     except Anchor:
         pass
     # ModuleHeader emission: five words in header order
-    f = ctx.rspirv.fn("rspirv::binary::assemble", "assemble_into", "ModuleHeader", "Assemble")
-    words = header_words(f)
-    chk.check(A, words == ["magic_number", "version", "generator", "bound", "reserved_word"], "ModuleHeader::assemble_into",
-              "header words emitted as %s" % words, raw.where("assemble_into", "ModuleHeader", "assemble.rs"), sample=words)
+    from . import headerx
+    headerx.report(chk, A, raw, headerx.header_api_problems(ctx), only=["ModuleHeader::assemble_into"], keyp="C15")
     chk.floor(A, "assemble_into impls", na, 3)
     chk.analysed.update({"traversal_methods": n, "assemble_impls": na + 1})
 
